@@ -59,6 +59,15 @@ class RNG:
         self.lineage = lineage
         self.draws = 0
 
+    def randint(self, lo, hi=None, size=None):
+        from ..values import fresh_int
+        if hi is None:
+            lo, hi = 0, lo
+        if size is not None:
+            raise Unmodelled("RandomState.randint(size=)")
+        self.draws += 1
+        return fresh_int("rand", lo, hi - 1)
+
     def __getattr__(self, k):
         def f(*a, **kw):
             raise Unmodelled("RandomState.%s" % k)
